@@ -88,6 +88,8 @@ def _all():
         _v("s_nl_triple", "'a\"\"\"b\\nc'", ["str"]),
         _v("s_nl_bslash", "'l1\\\\\\nl2\\\\'", ["str"]),
         _v("s_linesep", "'l1\\u2028l2\\u2029l3\\x85l4'", ["str"]),
+        _v("s_trailing_nl", "'abc\\n'", ["str"]),
+        _v("s_only_nl", "'\\n'", ["str"]),
         _v("s_cr", "'a\\rb'", ["str"]),
         _v("s_crlf", "'l1\\r\\nl2'", ["str"]),
         _v("s_tab", "'\\ttab'", ["str"]),
